@@ -5,7 +5,7 @@
    how long the wait really took).  All theorems are for every callback / socket script, every selector script and
    every fuel (a truncated run is a prefix of the real one). *)
 From Coq Require Import ZArith List Bool Lia.
-From EN Require Import Lib.Bytes IO.Retry IO.SendAll IO.SendMsg IO.Budget Proofs.C11_retry Proofs.C11_budget.
+From EN Require Import Lib.Bytes IO.Retry IO.RetryEnv IO.SendAll IO.SendMsg IO.Budget Proofs.C11_retry Proofs.C11_budget Proofs.C11_env.
 Import ListNotations.
 Open Scope Z_scope.
 
@@ -132,6 +132,108 @@ Theorem op_budget_client_send_packet :
 Proof. exact client_send_budget. Qed.
 Print Assumptions op_budget_client_send_packet.
 
+(* op_budget, iter_received_packets(timeout=T) of the blocking client: the remaining budget is carried across
+   packets.  The trace is every __next__ up to and including the first one that does not return a packet
+   (StopIteration ends the loop); per __next__: the blocking lock acquire (if any), then the selector waits. *)
+Theorem op_budget_iter_received_packets :
+  forall (F : nat) (ri : tmo) (N bufsize fuel : nat) (locks : list lockans) (t : Z) (buf : bytes) (eof : bool)
+         (s : list recvans) (sels : list selans),
+    (match ri with None => True | Some x => 0 < x end) ->
+    Forall (fun a => 0 <= match a with RData _ c => c | RBlock _ c => c | RErr c => c end) s ->
+    within_budget t
+      ((fix log (steps : list itstep) : list wait :=
+          match steps with
+          | [] => []
+          | st :: rest =>
+              (map (fun req => {| w_write := false; w_req := req; w_ready := true; w_el := it_lockdt st |})
+                   (it_lockwaits st) ++ it_waits st)
+              ++ match it_out st with RvPkt _ => log rest | _ => [] end
+          end) (iter_run F ri N bufsize fuel (Some t) locks buf eof s sels)).
+Proof. exact iter_budget. Qed.
+Print Assumptions op_budget_iter_received_packets.
+
+(* op_budget, asynchronous iterator (AsyncClientRecvIterator, backend timeout scope): whenever the packets
+   arrive, the time spent up to and including the first StopAsyncIteration is at most T; with T = 0 no __anext__
+   takes any time. *)
+Theorem op_budget_async_iterator :
+  forall (arr : list arrival) (t : Z),
+    0 <= t -> Forall (fun a => match a with ArrAfter d => 0 <= d | ArrErr => True end) arr ->
+    (fix time (steps : list astep) : Z :=
+       match steps with
+       | [] => 0
+       | st :: rest => as_dt st + (if as_out st =? 0 then time rest else 0)
+       end) (aiter_run (Some t) arr) <= t.
+Proof. exact aiter_budget. Qed.
+Print Assumptions op_budget_async_iterator.
+
+Theorem zero_timeout_async_iterator :
+  forall arr : list arrival,
+    Forall (fun a => match a with ArrAfter d => 0 <= d | ArrErr => True end) arr ->
+    Forall (fun st => as_dt st = 0) (aiter_run (Some 0) arr).
+Proof. exact aiter_zero. Qed.
+Print Assumptions zero_timeout_async_iterator.
+
+(* zero_timeout_never_waits on the send side, every path (sendmsg loop, join + send_all) and the client (lock). *)
+Theorem zero_timeout_never_waits_send :
+  forall (drop_empty has_sendmsg : bool) (iov : Z) (F fuel : nat) (ri : tmo) (chunks : list bytes) (l : lockans)
+         (s : sock) (sels : list selans),
+    Forall (fun a => 0 <= match a with SSent _ c => c | SBlock _ c => c | SErr c => c end) (sk_script s) ->
+    sr_waits (send_iter drop_empty has_sendmsg iov F fuel ri chunks (Some 0) s sels) = []
+    /\ cs_lockwaits (client_send drop_empty has_sendmsg iov F fuel ri chunks (Some 0) l s sels) = []
+    /\ sr_waits (cs_sr (client_send drop_empty has_sendmsg iov F fuel ri chunks (Some 0) l s sels)) = [].
+Proof.
+  intros. split; [apply send_iter_zero; assumption|]. apply client_send_zero; assumption.
+Qed.
+Print Assumptions zero_timeout_never_waits_send.
+
+(* retry_interval_irrelevant.  Environment indexed by virtual time (IO/RetryEnv.v): the fd is ready for good from
+   tick e_tau on, the selector also reports spurious readiness at the ticks e_spur, processing takes no time.
+   Then the outcome of _retry (including the timeout it hands back) and the time it takes do not depend on
+   retry_interval (any two positive or infinite values; fuel only has to be enough for each run). *)
+Theorem retry_interval_irrelevant :
+  forall (e : env) (T : tmo) (now : Z) (ri1 ri2 : tmo) (fuel1 fuel2 : nat),
+    (match ri1 with None => True | Some x => 0 < x end) ->
+    (match ri2 with None => True | Some x => 0 < x end) ->
+    rr_out (retry_env e fuel1 ri1 T now) <> RFuel ->
+    rr_out (retry_env e fuel2 ri2 T now) <> RFuel ->
+    rr_out (retry_env e fuel1 ri1 T now) = rr_out (retry_env e fuel2 ri2 T now)
+    /\ rr_dt (retry_env e fuel1 ri1 T now) = rr_dt (retry_env e fuel2 ri2 T now).
+Proof. exact retry_interval_irrelevant_proof. Qed.
+Print Assumptions retry_interval_irrelevant.
+
+(* ... and what that common outcome is: with a finite T >= 0, success after max(0, tau - now) iff tau <= now + T,
+   otherwise TimeoutError after exactly T; with an infinite T, success after max(0, tau - now). *)
+Theorem retry_env_outcome :
+  forall (e : env) (fuel : nat) (ri T : tmo) (now : Z),
+    (match ri with None => True | Some x => 0 < x end) ->
+    (match T with Some t => 0 <= t | None => True end) ->
+    rr_out (retry_w (cb_env e) (sel_env e) fuel ri T now) <> RFuel ->
+    match T with
+    | Some t =>
+        if e_tau e <=? now + t
+        then rr_out (retry_w (cb_env e) (sel_env e) fuel ri T now) = ROk tt (Some (t - Z.max 0 (e_tau e - now)))
+             /\ rr_dt (retry_w (cb_env e) (sel_env e) fuel ri T now) = Z.max 0 (e_tau e - now)
+        else rr_out (retry_w (cb_env e) (sel_env e) fuel ri T now) = RTimeout
+             /\ rr_dt (retry_w (cb_env e) (sel_env e) fuel ri T now) = t
+    | None => rr_out (retry_w (cb_env e) (sel_env e) fuel ri T now) = ROk tt None
+              /\ rr_dt (retry_w (cb_env e) (sel_env e) fuel ri T now) = Z.max 0 (e_tau e - now)
+    end.
+Proof. exact retry_w_env_spec. Qed.
+Print Assumptions retry_env_outcome.
+
+(* the world-state loop retry_w used above is the validated retry_loop: on the world (callback state, answer list)
+   it produces the same outcome, state, elapsed time, waits and number of calls. *)
+Theorem retry_w_is_retry_loop :
+  forall (St R : Type) (cb : St -> cbres R * St * Z) (fuel : nat) (ri T : tmo) (st : St) (sels : list selans),
+    let r := retry_loop cb fuel ri T st sels in
+    let r' := retry_w (fun w : St * list selans => let '(x, st1, c) := cb (fst w) in (x, (st1, snd w), c))
+                      (fun (w : St * list selans) (_ : tmo) => let '(a, sels1) := next_sel (snd w) in (a, (fst w, sels1)))
+                      fuel ri T (st, sels) in
+    rr_out r' = rr_out r /\ rr_st r' = (rr_st r, rr_sels r) /\ rr_dt r' = rr_dt r
+    /\ rr_waits r' = rr_waits r /\ rr_calls r' = rr_calls r.
+Proof. exact retry_w_list_instance. Qed.
+Print Assumptions retry_w_is_retry_loop.
+
 (* ---- non-vacuity: a drip-fed 3-byte packet, retry interval 2, T = 8: four waits, all inside the budget *)
 Example drip_feed :
   let s := [RBlock false 0; RData [1%N] 0; RBlock false 0; RData [2%N] 0; RBlock false 0; RBlock false 0; RData [3%N] 0] in
@@ -147,4 +249,11 @@ Example drip_feed_times_out :
   let sels := [{| sa_ready := true; sa_el := 2 |}; {| sa_ready := false; sa_el := 1 |}] in
   let r := receive 9 None 3 4 9 (Some 3) [] false s sels in
   rv_out r = RvExc E_TIMEOUT /\ map w_req (rv_waits r) = [Some 3; Some 1] /\ rv_dt r = 3.
+Proof. vm_compute. repeat split. Qed.
+
+Example env_run_ri2 : let r := retry_env (mk_env 5 [1; 3]) 9 (Some 2) (Some 8) 0 in
+  rr_out r = ROk tt (Some 3) /\ rr_dt r = 5 /\ length (rr_waits r) = 3%nat.
+Proof. vm_compute. repeat split. Qed.
+Example env_run_riinf : let r := retry_env (mk_env 5 [1; 3]) 9 None (Some 8) 0 in
+  rr_out r = ROk tt (Some 3) /\ rr_dt r = 5.
 Proof. vm_compute. repeat split. Qed.
